@@ -68,7 +68,7 @@ class BaseNode(Node):
     def cast_value(self, value=None):
         """ Cast (raw-)value as a datatype self, or another node
         """
-        if not value:
+        if not value and not (isinstance(value, str) and self.keyword=='str'):  # '' is a value of a string node
             if self.value is None:
                 value = self.value_raw
             else:
@@ -205,6 +205,7 @@ class BaseNode(Node):
             node.value_raw = nodes
         else:                        # node import
             node.value_raw = self._current_raw(nodes[0])
+            node.value_injected = True
             if not node.units_raw:
                 node.units_raw = nodes[0].units_raw
 
